@@ -26,6 +26,7 @@ RULES_DOC = {
     "R8": "`unreachable!()` -> call of `unreached()` (requires false); `debug_assert!(e)` -> `assert(e)`",
     "R9": "std functions without vstd spec get assume_specification from speclib/std_specs.rs",
     "R10": "`let PAT = EXPR else { return X; };` (let-else) -> `let (binders) = match EXPR { PAT => (binders), _ => { return X; } };`",
+    "R13": "closure with a tuple-pattern parameter `|(a, b)| e` -> `|v: T| { let (a, b) = v; e }`",
     "R11": "`vec![a, b]` -> `vec2(a, b)`-style helper calls with vstd-verified bodies (speclib/std_specs.rs)",
 }
 
@@ -578,8 +579,17 @@ def emit_fn(out, u, fs, rules_used):
             # body of the closure: a block, or an expression that is wrapped into a block
             j = b + 1
             while body[j].kind in ("ws", "comment"): j += 1
+            # R13: a tuple pattern parameter `|(a, b)|` becomes `|v: ..| { let (a, b) = v; .. }`
+            orig_params = toks_text(body[a + 1:b]).strip()
+            let_stmt = ""
+            if orig_params.startswith("("):
+                var = re.match(r"\|\s*([A-Za-z_][A-Za-z0-9_]*)\s*:", hdr)
+                if not var:
+                    raise LostAnchor("fn %s: closure %d has a pattern parameter, header must name one variable" % (fs.name, kk))
+                let_stmt = " let %s = %s;" % (orig_params, var.group(1))
+                rules_used.add("R13")
             if body[j].kind == "punct" and body[j].text == "{":
-                ins.append((off(body[a]), "replace", (off(body[b]) + len(body[b].text), hdr)))
+                ins.append((off(body[a]), "replace", (off(body[j]) + 1, hdr + " {" + let_stmt)))
             else:
                 depth = 0
                 e = j
@@ -593,7 +603,7 @@ def emit_fn(out, u, fs, rules_used):
                         elif tt.text in (",", ";") and depth == 0:
                             break
                     e += 1
-                ins.append((off(body[a]), "replace", (off(body[b]) + len(body[b].text), hdr + " {")))
+                ins.append((off(body[a]), "replace", (off(body[b]) + len(body[b].text), hdr + " {" + let_stmt)))
                 ins.append((off(body[e]), "replace", (off(body[e]), " }")))
             rules_used.add("R5")
     ncl = fs.opts.get("closures")
